@@ -9,6 +9,9 @@
 #include <string_theory/iostream>
 
 #include <cstdio>
+#include <cstdlib>
+#include <cstring>
+#include <initializer_list>
 #include <ostream>
 #include <streambuf>
 #include <string>
@@ -335,6 +338,30 @@ const Op kOps[] = {
     OP("hex/base64 decode into caller buffer", TGT_NONE, char out[2048]; g_sink = (size_t)ST::hex_decode(*f.HEX, out, sizeof out) + (size_t)ST::base64_decode(*f.B64, out, sizeof out)),
 };
 const int kNOps = (int)(sizeof(kOps) / sizeof(kOps[0]));
+
+// When this harness runs as the allocation-fault stage of ANOTHER property's check (environment VERIF_FAMILY=Cxx), only the operations
+// whose names mention that property's functions take part.  Unset: the whole catalogue.
+bool in_family(int op) {
+    static const std::vector<bool> pick = [] {
+        std::vector<bool> v((size_t)kNOps, true);
+        static const struct { const char *id; std::initializer_list<const char *> words; } tab[] = {
+            {"C01", {"utf", "latin", "wchar", "from_", "to_std", "u16string", "u32string", "wstring", "char16_t", "char32_t", "wchar_t"}},
+            {"C02", {"utf", "latin", "wchar", "from_", "char16_t", "char32_t", "wchar_t"}}, {"C03", {"utf", "latin", "wchar", "from_", "to_std", "char16_t", "char32_t", "wchar_t"}},
+            {"C04", {"T = ", "T +=", "copy", "substr", "left", "right", "trim", "upper", "lower", "replace", "split", "operator+", "to_utf", "fill"}},
+            {"C05", {"CB", "U16", "U32", "W ", "W.", "W=", "buffer", "allocate"}}, {"C06", {"compare", "hash", "upper", "lower", "=="}},
+            {"C07", {"find", "contains", "starts_with", "ends_with", "BIG."}}, {"C08", {"substr", "left", "right", "trim", "before", "after"}},
+            {"C09", {"split", "replace", "tokenize"}}, {"C10", {"format", "printf", "writef"}}, {"C11", {"format", "printf", "writef"}},
+            {"C12", {"from_int", "from_uint", "to_int", "unsigned long long", "format"}}, {"C13", {"double", "float", "format"}},
+            {"C14", {"hex", "base64"}}, {"C15", {"hex", "base64"}}, {"C16", {"SS", "stream"}}, {"C17", {"printf", "writef", "format"}}, {"C18", {"decode", "latin", "+="}}};
+        const char *e = getenv("VERIF_FAMILY");
+        if (!e) return v;
+        for (const auto &t : tab) if (!strcmp(e, t.id)) {
+            for (int i = 0; i < kNOps; i++) { bool hit = false; for (const char *w : t.words) if (strstr(kOps[i].name, w)) hit = true; v[(size_t)i] = hit; }
+        }
+        return v;
+    }();
+    return pick[(size_t)op];
+}
 const size_t kSizes[] = {3, 15, 16, 40, 300, 1100};
 
 struct Instance { int op; int size_idx; bool t_long, a_long, ss_heap; int ext; bool huge = false; };
@@ -460,6 +487,7 @@ long verif_enumerate(int shard, int nshards, int tier, verif::EnumReport &r) {
         for (int sz = 0; sz < 6; sz++)
             for (int fl = 0; fl < 64; fl++, idx++) {
                 if (idx % nshards != shard) continue;
+                if (!in_family(op)) continue;
                 if (!tier && (sz == 1 || sz == 5) && (fl & 4)) continue;      // quick tier: a thinner cross product
                 if (!tier && (fl >> 3) && (sz == 0 || sz == 3) ) continue;   // quick tier: extra pre-states with 4 of the 6 size classes
                 Instance in{op, sz, (fl & 1) != 0, (fl & 2) != 0, (fl & 4) != 0, fl >> 3};
@@ -472,7 +500,7 @@ long verif_enumerate(int shard, int nshards, int tier, verif::EnumReport &r) {
             }
     // targets owning 1 MiB blocks: every operation that has a target, 2 argument sizes x source short/long
     for (int op = 0; op < kNOps; op++) {
-        if (kOps[op].target == TGT_NONE || kOps[op].target == TGT_SS) continue;
+        if (kOps[op].target == TGT_NONE || kOps[op].target == TGT_SS || !in_family(op)) continue;
         for (int sz = 2; sz <= 4; sz += 2) for (int al = 0; al < 2; al++, idx++) {
             if (idx % nshards != shard) continue;
             if (!tier && sz == 4 && al) continue;
